@@ -30,6 +30,7 @@ type Producer struct {
 type Case struct {
 	Producers  []Producer
 	Broker     []int // cycle of per-batch broker latencies in 100 us units; -1 = hold this batch until released
+	ChanCap    int   // capacity of the hand-over channel between WriteEvent and the batching loop (0 = the production value 10000)
 	HoldFirst  bool  // broker holds the first batch until all producers are done (never-wait check)
 	CloseDelay int   // ms between the last WriteEvent returning and Close
 }
@@ -95,7 +96,11 @@ func run(c Case) (res vh.Result) {
 	doRelease := func() { relOnce.Do(func() { close(release) }) }
 	defer doRelease()
 	nb := 0
-	w := event.VerifNewKafkaWriter("verif", func(msgs []kafka.Message) {
+	chanCap := 10000
+	if c.ChanCap > 0 {
+		chanCap = c.ChanCap
+	}
+	w := event.VerifNewKafkaWriterCap("verif", func(msgs []kafka.Message) {
 		mu.Lock()
 		b := nb
 		nb++
@@ -119,7 +124,7 @@ func run(c Case) (res vh.Result) {
 			got = append(got, rec{tag, string(m.Key), b})
 		}
 		mu.Unlock()
-	})
+	}, chanCap)
 
 	total := 0
 	wantKey := map[string]string{}
@@ -276,6 +281,7 @@ func gen(t *rapid.T) Case {
 	}
 	c.Broker = rapid.SliceOfN(rapid.OneOf(rapid.Just(0), rapid.IntRange(0, 30), rapid.IntRange(0, 200), rapid.Just(-1)), 1, 5).Draw(t, "broker")
 	c.HoldFirst = rapid.IntRange(0, 3).Draw(t, "holdFirst") == 0
+	c.ChanCap = rapid.SampledFrom([]int{0, 0, 0, 4, 16, 64}).Draw(t, "chanCap")
 	c.CloseDelay = rapid.SampledFrom([]int{0, 0, 0, 1, 5}).Draw(t, "closeDelay")
 	return c
 }
@@ -286,6 +292,8 @@ func TestWriter(t *testing.T) {
 
 func TestWriterFixed(t *testing.T) {
 	// 1000 events, slow broker, Close right after the last publish (DESIGN section 9 observation f)
+	// the hand-over channel is full while the producers keep publishing (small channel: reached with a few events)
+	vh.Fixed(t, prop, "hand-over-channel-full", Case{ChanCap: 4, Producers: []Producer{{N: 300, Types: []int{0, 1}, Ids: []int{0}}, {N: 300, Types: []int{5}, Ids: []int{1}}}, Broker: []int{-1, 20}, HoldFirst: true}, run)
 	vh.Fixed(t, prop, "backlog-at-close", Case{Producers: []Producer{{N: 1000, Types: []int{0}, Ids: []int{0}}}, Broker: []int{50}}, run)
 	vh.Fixed(t, prop, "held-broker-8-producers", Case{Producers: []Producer{
 		{N: 1000, Types: []int{0, 4}, Ids: []int{0, 1}}, {N: 1000, Types: []int{1}, Ids: []int{0}}, {N: 1000, Types: []int{2}, Ids: []int{1}}, {N: 1000, Types: []int{3}, Ids: []int{2}},
